@@ -45,13 +45,13 @@ impl Slot {
 
     /// Generates a named slot like `$xyz`
     pub fn named(s: &str) -> Slot {
-        if let Ok(x) = s.parse::<u32>() {
+        if let Some(x) = parse_canonical_u30(s) {
             return Slot(x * 4); // numeric
         }
 
         SLOT_TABLE.with_borrow_mut(|tab| {
             if s.starts_with("f") {
-                if let Ok(x) = s[1..].parse::<u32>() {
+                if let Some(x) = parse_canonical_u30(&s[1..]) {
                     let out = x * 4 + 1;
                     if tab.fresh_idx <= out {
                         tab.fresh_idx = out + 4;
@@ -70,6 +70,18 @@ impl Slot {
             tab.named_map.insert(s.to_string(), i);
             Slot(i) // new named
         })
+    }
+}
+
+// Only the canonical decimal spelling of a number below 2^30 denotes a numeric (or fresh) slot.
+// Everything else ("01", "+1", numbers whose encoding would overflow) is an ordinary name,
+// so that distinct names denote distinct slots and printing inverts parsing.
+fn parse_canonical_u30(s: &str) -> Option<u32> {
+    let x = s.parse::<u32>().ok()?;
+    if x < (1 << 30) && x.to_string() == s {
+        Some(x)
+    } else {
+        None
     }
 }
 
